@@ -111,7 +111,7 @@ func c14(c *wk.Ctx) {
 		}
 	}()
 	n := 0
-	c.Cases("history", c.Pick(800, 20000), func(i int, rng *rand.Rand) {
+	c.Cases("history", c.Pick(800, 80000), func(i int, rng *rand.Rand) {
 		if w == nil || n%50 == 0 {
 			if w != nil {
 				w.close()
@@ -127,7 +127,7 @@ func c14(c *wk.Ctx) {
 		n++
 		c14one(c, i, rng, w, fmt.Sprintf("R%d", n))
 	})
-	c.Cases("faulty-link", c.Pick(120, 4000), func(i int, rng *rand.Rand) { c14faulty(c, i, rng) })
+	c.Cases("faulty-link", c.Pick(120, 12000), func(i int, rng *rand.Rand) { c14faulty(c, i, rng) })
 }
 
 func c14one(c *wk.Ctx, i int, rng *rand.Rand, w *world, name string) {
